@@ -155,6 +155,11 @@ type respRun struct {
 var httpStatus = []string{"s200", "s201", "s204", "s299", "s301", "s304", "s400", "s404", "s418", "s429", "s500", "s503", "s599"}
 var httpNet = []string{"badstatus", "badheader", "hugeheader", "closebefore", "closeduring", "many1xx"}
 var httpBody = []string{"trunc", "badchunk", "chunkhuge", "chunkneg", "chunknocrlf", "chunktrunc"}
+
+// the ANNOUNCED length of the body is the peer's number (spec/Responses.tla AnnouncedLens): 2^62, 2^63-1 (status and headers
+// arrive, the body ends early) and 2^63, 10^20 (no Content-Length a client can accept: no response at all)
+var httpLenBody = []string{"cl2p62", "clmax64"}
+var httpLenNet = []string{"cl2p63", "cl1e20"}
 var tunnelLetters = []string{"tunrefused", "tun407", "tungarbage", "tunextra"}
 var httpList = []string{"lst0", "lst1", "lststr", "lstnull", "lstobj"}
 var httpOdd = []string{"early", "empty", "big", "notjson", "jsonarr", "nothtml", "shorthdr", "nohdr", "cont100", "upgrade", "gzipraw", "manyheaders", "dribble"}
@@ -337,7 +342,7 @@ const runLimit = 300 * time.Second
 
 func planAll(mixes int, rnd *rand.Rand, h2 bool) []respPlan {
 	var plans []respPlan
-	httpAll := append(append(append(append([]string{}, httpStatus...), httpNet...), httpBody...), httpOdd...)
+	httpAll := append(append(append(append(append(append([]string{}, httpStatus...), httpNet...), httpBody...), httpOdd...), httpLenBody...), httpLenNet...)
 	for _, l := range httpAll {
 		plans = append(plans, respPlan{gun: "http", posts: "none", letters: repeat(l, shots)})
 		plans = append(plans, respPlan{gun: "http/scenario", posts: "all", letters: repeat(l, shots)})
@@ -352,6 +357,17 @@ func planAll(mixes int, rnd *rand.Rand, h2 bool) []respPlan {
 			}
 			plans = append(plans, respPlan{gun: "http/scenario", posts: p, letters: repeat(l, shots)})
 		}
+	}
+	// absurd announced lengths x every way a scenario step reads the body into memory (each postprocessor set on its own,
+	// none = the body is only drained) and, with the side channels on (answlog / debug log read the body too), x every gun
+	for _, l := range httpLenBody {
+		for _, p := range []string{"none", "jsonpath", "header_substr", "xpath", "assert", "idx_last"} {
+			plans = append(plans, respPlan{gun: "http/scenario", posts: p, letters: repeat(l, shots)})
+		}
+		plans = append(plans, respPlan{gun: "http/scenario", posts: "none", letters: repeat(l, shots), debug: true})
+		plans = append(plans, respPlan{gun: "http/scenario", posts: "all", letters: repeat(l, shots), debug: true})
+		plans = append(plans, respPlan{gun: "http", posts: "none", letters: repeat(l, shots), debug: true})
+		plans = append(plans, respPlan{gun: "connect", posts: "none", letters: repeat(l, shots), debug: true})
 	}
 	// Content-Encoding: gzip on garbage, with a client that decompresses (single-letter runs: the gun option is per run)
 	for _, g := range []string{"http", "http/scenario", "connect"} {
@@ -492,7 +508,7 @@ func planAll(mixes int, rnd *rand.Rand, h2 bool) []respPlan {
 		}
 	}
 	// seeded random mixtures (letters whose effect is confined to their own request)
-	mixHTTP := append(append(append(append(append([]string{}, httpStatus...), httpNet...), httpBody...), httpOdd...), httpList...)
+	mixHTTP := append(append(append(append(append(append(append([]string{}, httpStatus...), httpNet...), httpBody...), httpOdd...), httpList...), httpLenBody...), httpLenNet...)
 	mixGrpc := append([]string{"gbig", "gtoobig", "gempty", "ggarbage"}, grpcOddCodes...)
 	mixPosts := append(append([]string{}, allPosts...), idxPostNames...)
 	for c := 0; c <= 16; c++ {
